@@ -2,17 +2,30 @@
 
 package eventbus
 
-import "unsafe"
+import (
+	"sync/atomic"
+	"unsafe"
+)
 
 // VerifYield, when non-nil, is called at the scheduling points of
-// PublishContext (after the handler snapshot, after a once claim, at the
-// start and end of an async goroutine, around the once-handler removal).
-// It exists only in builds with the "verif" tag and is used by the external
-// verification harness to observe and steer interleavings.
-var VerifYield func(point string, handler uintptr)
+// PublishContext (after the handler snapshot, after a once claim, when an
+// async goroutine is spawned, at its start and end, around the once-handler
+// removal). n identifies the spawned goroutine for the spawn/start/end
+// points. It exists only in builds with the "verif" tag and is used by the
+// external verification harness to observe and steer interleavings.
+var VerifYield func(point string, handler uintptr, n uint64)
 
-func verifYield(point string, h *internalHandler) {
+var verifSpawnCounter atomic.Uint64
+
+func verifYield(point string, h *internalHandler, n uint64) {
 	if f := VerifYield; f != nil {
-		f(point, uintptr(unsafe.Pointer(h)))
+		f(point, uintptr(unsafe.Pointer(h)), n)
 	}
+}
+
+// verifSpawn numbers the async goroutine about to be started by the publisher.
+func verifSpawn(h *internalHandler) uint64 {
+	n := verifSpawnCounter.Add(1)
+	verifYield("publish.spawn", h, n)
+	return n
 }
